@@ -29,6 +29,9 @@ func runC16(c *Check, tier string) {
 	ruleR16h(c)
 	ruleR16i(c)
 	ruleR16j(c)
+	// "the loaded graph does not depend on walk order": a label defined twice (target and alias, two files of one
+	// directory) is rejected whichever definition arrives first
+	shareRule(c, "R16k", "every insertion into the node map is guarded by a lookup of the same label that rejects a duplicate (same obligations as R11c)", 2, "R11c", func(sub *Check) { ruleR11c(sub) }, func(k string) bool { return strings.Contains(k, "guarded-insert") })
 }
 
 // R16j: a loader's error reaches the caller: no function of internal/loading (nor the node-map constructor)
